@@ -2170,6 +2170,14 @@ def d_unpack( ctx ):
             if isinstance( a, ( ast.While, ast.If )) and any( cur is b for b in a.body ):
                 conj = a.test.values if isinstance( a.test, ast.BoolOp ) and isinstance( a.test.op, ast.And ) else [ a.test ]
                 g = [ c_ for c_ in conj if pmatch( c_, '%r in %s' % ( sep, X )) is not None ]
+                if not g and X.endswith( '[:-1]' ):
+                    # <y>[:-1] holds the separator when <y> does and <y> is known to end in another character
+                    Y = X[:-len( '[:-1]' )]
+                    last = [ try_fold( pmatch( c_, '%s[-1] == _c' % Y )['_c'] ) for c_ in conj if pmatch( c_, '%s[-1] == _c' % Y ) is not None ]
+                    if any( isinstance( l_, str ) and l_ != sep for l_ in last ):
+                        g = [ c_ for c_ in conj if pmatch( c_, '%r in %s' % ( sep, Y )) is not None ]
+                        if g:
+                            X = Y
                 if g:
                     # <x> must not be re-bound between the test and the unpack
                     before = a.body[:a.body.index( cur )]
@@ -2237,4 +2245,51 @@ def t_zonetoken( ctx ):
     else:
         res.ok( src, ts, 'the separator table holds punctuation only ( %r )' % frm )
     res.ok( src, rn, 'render() zone designator forms: %d' % len( emits ), nontrivial=False )
+    return res
+
+
+@rule( 'D-INDEXSPLIT', props=( 'C16', ), floor=3 )
+def d_indexsplit( ctx ):
+    """dotdict.__setitem__: a final segment of the form name[index] is broken at its FIRST bracket - the name is what precedes it, the index
+    text everything between it and the closing bracket, further brackets included ( d['l[m[0]]'] = v, the docstring's name[a.b[c+3]] ):
+    lookup evaluates the whole segment as an expression, so the assignment must address the same element.  The split expression and the
+    argument of eval() are evaluated on three segment texts."""
+    res = Result( 'D-INDEXSPLIT' )
+    src = ctx.src( 'dotdict.py' )
+    fn = src.get( 'dotdict_base.__setitem__' )
+    found = 0
+    for i in ast.walk( fn ):
+        if not isinstance( i, ast.If ):
+            continue
+        conj = i.test.values if isinstance( i.test, ast.BoolOp ) and isinstance( i.test.op, ast.And ) else [ i.test ]
+        seg = None
+        for c in conj:
+            m = pmatch( c, "'[' in _seg" )
+            if m is not None and isinstance( m['_seg'], ast.Name ):
+                seg = m['_seg'].id
+        if seg is None:
+            continue
+        unpack = [ s for s in i.body if isinstance( s, ast.Assign ) and isinstance( s.targets[0], ast.Tuple ) and len( s.targets[0].elts ) == 2
+                   and all( isinstance( e, ast.Name ) for e in s.targets[0].elts ) and seg in names_in( s.value ) ]
+        evals = [ c for s in i.body for c in ast.walk( s ) if is_call_to( c, 'eval' ) and c.args ]
+        if len( unpack ) != 1 or len( evals ) != 1:
+            continue
+        found += 1
+        N, I = [ e.id for e in unpack[0].targets[0].elts ]
+        for text, want in (( 'l[3]', ( 'l', '3' )), ( 'l[m[0]]', ( 'l', 'm[0]' )), ( 'rows[a.b[c+3]]', ( 'rows', 'a.b[c+3]' ))):
+            try:
+                parts = fold( unpack[0].value, { seg: text } )
+                name, raw = parts
+                index = fold( evals[0].args[0], { N: name, I: raw } )
+            except ( NoFold, ValueError, TypeError ) as exc:
+                res.bad( src, unpack[0], '__setitem__: segment %r cannot be broken into name and index ( %s )' % ( text, exc ),
+                         'an assignment to this key raises although lookup and membership of the same key succeed' )
+                continue
+            if ( name, index ) == want:
+                res.ok( src, unpack[0], '__setitem__: %r -> name %r, index text %r' % ( text, name, index ))
+            else:
+                res.bad( src, unpack[0], '__setitem__: %r is broken into name %r and index text %r' % ( text, name, index ),
+                         'the name ends at the FIRST bracket and the index is everything up to the closing one ( %r, %r ): as it is, the assignment raises or addresses another element than the lookup of the same key' % want )
+    if not found:
+        raise AnalysisError( "dotdict_base.__setitem__: the branch that breaks a final name[index] segment ( `'[' in <segment>` ... eval ) not found" )
     return res
